@@ -240,6 +240,35 @@ func ruleKeyParamsEncoded(e *Engine, r *Reporter) {
 					f := u.Field(i).Name()
 					r.Check(paths.has(f), key+"."+f, e.pos(fn.Pos()), "read into the key", fmt.Sprintf("filter field %s is not read by the key builder although the backends filter on it: differing queries share a cache entry", f))
 				}
+				// nested: every element path a backend reads from this filter is also read by the key builder
+				if nt, ok := types.Unalias(t).(*types.Named); ok {
+					for _, m := range readMethods {
+						if m.filter != nt.Obj().Name() {
+							continue
+						}
+						want := pathSet{}
+						for _, be := range append([]string{"memory"}, sqlBackends...) {
+							recv := "Datastore."
+							if be == "memory" {
+								recv = "MemoryBackend."
+							}
+							bf := e.FuncOpt("pkg/storage/"+be, recv+m.impl)
+							if bf == nil {
+								continue
+							}
+							if _, bp := paramOfType(bf, nt); bp != nil {
+								for pth := range e.accessPaths(bf, bp, 3) {
+									if strings.Contains(pth, ".") && !strings.HasSuffix(pth, "!") {
+										want[pth] = true
+									}
+								}
+							}
+						}
+						for _, pth := range want.sorted() {
+							r.Check(paths.has(pth) || oneofEquivalent(u, paths, pth), key+"."+pth, e.pos(fn.Pos()), "element path read by the backends is read into the key", fmt.Sprintf("the backends filter on %s but the key builder never reads it: queries differing only there share a cache entry", pth))
+						}
+					}
+				}
 			case *types.Pointer, *types.Interface:
 				ref, has := keyGetterReference[key]
 				if !has {
@@ -428,4 +457,53 @@ func (e *Engine) allCallSites(fn *ssa.Function) []ssa.CallInstruction {
 		}
 	}
 	return out
+}
+
+
+// oneofEquivalent: the backends read a protobuf oneof through its flattening getter (ref.GetRelation()), the key
+// builder through a type switch on the wrapper (ref.GetRelationOrWildcard().(type) … r.Relation).  F.x is covered by
+// F.o.x for an interface-typed (oneof) field o of the element message, and — when variant x carries no scalar
+// payload (an empty message such as Wildcard) — by the type switch on F.o itself.
+func oneofEquivalent(filter *types.Struct, paths pathSet, pth string) bool {
+	segs := strings.Split(pth, ".")
+	if len(segs) != 2 {
+		return false
+	}
+	var elem *types.Struct
+	var elemNamed *types.Named
+	for i := 0; i < filter.NumFields(); i++ {
+		if filter.Field(i).Name() != segs[0] {
+			continue
+		}
+		t := filter.Field(i).Type()
+		if sl, ok := t.Underlying().(*types.Slice); ok {
+			t = sl.Elem()
+		}
+		t = derefType(t)
+		if n, ok := types.Unalias(t).(*types.Named); ok {
+			elemNamed = n
+			elem, _ = n.Underlying().(*types.Struct)
+		}
+	}
+	if elem == nil {
+		return false
+	}
+	for i := 0; i < elem.NumFields(); i++ {
+		f := elem.Field(i)
+		if _, ok := f.Type().Underlying().(*types.Interface); !ok || !f.Exported() {
+			continue
+		}
+		if paths.has(segs[0] + "." + f.Name() + "." + segs[1]) {
+			return true
+		}
+		// variant without scalar payload, distinguished by the type switch alone
+		if w, ok := elemNamed.Obj().Pkg().Scope().Lookup(elemNamed.Obj().Name() + "_" + segs[1]).(*types.TypeName); ok {
+			if ws, ok := w.Type().Underlying().(*types.Struct); ok && ws.NumFields() == 1 {
+				if _, isPtr := ws.Field(0).Type().Underlying().(*types.Pointer); isPtr && paths.has(segs[0]+"."+f.Name()) {
+					return true
+				}
+			}
+		}
+	}
+	return false
 }
